@@ -60,6 +60,11 @@ func Witnesses(prop string) []*Case {
 			Ops: cat(ops(Op{K: "connect", A: 0, B: 1}, Op{K: "connect", A: 0, B: 3}, Op{K: "connect", A: 1, B: 2}, Op{K: "connect", A: 3, B: 2},
 				cidr(0, 1), ann(0), Op{K: "deliver", I: 0}, Op{K: "deliver", I: 1}, Op{K: "forget", A: 2, Origin: 0, Seq: 2},
 				Op{K: "deliver", I: 0}, Op{K: "deliver", I: 1}), drain(6), ops(Op{K: "connect", A: 2, B: 4}), drain(8))})
+		// O0-B1-C2-D3; O and B are both at counter 2; O withdraws under sequence 3 (B relays it), then B's own
+		// announcement #3 follows within the seen-cache TTL: C must accept, renew and forward it
+		out = append(out, &Case{Name: "w14-withdraw-relay-then-announce", N: 4, Limits: make([]int, 4), Settle: true,
+			Ops: cat(chainLinks(4), ops(cidr(0, 1), cidr(1, 2), ann(0), ann(1)), drain(20), ops(Op{K: "withdraw", A: 0}), drain(10),
+				ops(Op{K: "advance", D: 10}, ann(1)), drain(10))})
 		// boundary replay: O0-X1-Y2-K3 and O0-A4-R5-D6, max_hops 3 everywhere. Announcement #3 of O has reached K
 		// (exactly 3 hops) and A; R connects to K and is handed whatever K replays BEFORE A's copy arrives. K must not
 		// replay O's routes (the path would have 4 hops); R must accept A's copy, renew and forward it.
@@ -80,6 +85,9 @@ func Witnesses(prop string) []*Case {
 			Ops: cat(chainLinks(3), ops(cidr(0, 1), ann(0)), drain(6))})
 		out = append(out, &Case{Name: "w15-agent-chain4-limit2", N: 4, Limits: []int{2, 2, 2, 2}, UseAgent: true, Settle: true,
 			Ops: cat(chainLinks(4), ops(cidr(0, 1), ann(0)), drain(8))})
+		// the same with a management public key configured (typical field deployment): the limit must still reach the flooder
+		out = append(out, &Case{Name: "w15-agent-mgmt-key-chain4-limit2", N: 4, Limits: []int{2, 2, 2, 2}, UseAgent: true, MgmtKey: true, Settle: true,
+			Ops: cat(chainLinks(4), ops(cidr(0, 1), ann(0)), drain(8))})
 		out = append(out, &Case{Name: "w15-replay-limit2", N: 4, Limits: []int{2, 2, 2, 2}, Settle: true,
 			Ops: cat(ops(Op{K: "connect", A: 0, B: 1}, Op{K: "connect", A: 1, B: 2}, cidr(0, 1), ann(0)), drain(4), ops(Op{K: "connect", A: 2, B: 3}), drain(6))})
 	case "C11":
@@ -88,10 +96,21 @@ func Witnesses(prop string) []*Case {
 			Ops: cat(ops(Op{K: "connect", A: 0, B: 1}, Op{K: "connect", A: 1, B: 2}, Op{K: "connect", A: 2, B: 3}, Op{K: "connect", A: 1, B: 4},
 				ann(3), ann(3)), drain(12), ops(cidr(0, 1), ann(0)), drain(12),
 				ops(Op{K: "forget", A: 1, Origin: 0, Seq: 2}, Op{K: "forget", A: 4, Origin: 0, Seq: 2}, Op{K: "connect", A: 1, B: 3}), drain(30))})
+		// A0-B1, A0-C2, C2-B1, B1-D3, link A->C slow: A announces (B relays to D), A withdraws (B handles the withdrawal),
+		// only then C relays its copy of the announcement to B: B must drop it as already seen (no expiry involved)
+		out = append(out, &Case{Name: "w11-withdraw-then-late-copy", N: 4, Limits: make([]int, 4), Settle: true,
+			Ops: cat(ops(Op{K: "connect", A: 0, B: 1}, Op{K: "connect", A: 0, B: 2}, Op{K: "connect", A: 2, B: 1}, Op{K: "connect", A: 1, B: 3},
+				cidr(0, 1), ann(0), Op{K: "deliver", I: 0}, Op{K: "deliver", I: 2}, Op{K: "withdraw", A: 0}, Op{K: "deliver", I: 2}, Op{K: "deliver", I: 0}), drain(20))})
 		// known finding: a delayed duplicate delivered after the seen-cache entry expired is processed and forwarded again
 		out = append(out, &Case{Name: "w11-duplicate-after-expiry", N: 3, Limits: make([]int, 3), Settle: true,
 			Ops: cat(chainLinks(3), ops(cidr(0, 1), ann(0), Op{K: "deliver", I: 0, Dup: true}), ops(Op{K: "deliver", I: 1}, Op{K: "advance", D: 451}, Op{K: "deliver", I: 0}), drain(4))})
 	case "C12":
+		// the same CIDR advertised by two exits (0 and 1) behind hub 2; after the mesh has converged a late joiner (3)
+		// connects to the hub and learns the table from the full-table replay only: it must learn the prefix from BOTH exits
+		out = append(out, &Case{Name: "w12-shared-prefix-late-joiner", N: 4, Limits: make([]int, 4), Settle: true,
+			Ops: cat(ops(Op{K: "connect", A: 0, B: 2}, Op{K: "connect", A: 1, B: 2}, cidr(0, 1), cidr(1, 1), Op{K: "addlocal", A: 0, Kind: KDomain, ID: 2}, Op{K: "addlocal", A: 1, Kind: KDomain, ID: 2},
+				Op{K: "addlocal", A: 0, Kind: KForward, ID: 1}, Op{K: "addlocal", A: 1, Kind: KForward, ID: 1}, ann(0), ann(1), ann(2)), drain(20),
+				ops(Op{K: "connect", A: 2, B: 3}), drain(20))})
 		// hop limit exactly at the distance: chain of 5 with max_hops 4 (the ends are 4 hops apart) -> everybody learns
 		// everybody; with max_hops 3 everybody except the far end
 		for _, l := range []int{4, 3, 5} {
@@ -109,6 +128,27 @@ func Witnesses(prop string) []*Case {
 		out = append(out, &Case{Name: "w12-diamond", N: 4, Limits: make([]int, 4), Settle: true,
 			Ops: cat(ops(Op{K: "connect", A: 0, B: 1}, Op{K: "connect", A: 0, B: 2}, Op{K: "connect", A: 1, B: 3}, Op{K: "connect", A: 2, B: 3},
 				cidr(0, 1), cidr(3, 1), Op{K: "addlocal", A: 3, Kind: KDomain, ID: 1}, ann(0), ann(1), ann(2), ann(3)), drain(40))})
+	}
+	return out
+}
+
+// LateWitnesses are fixed cases outside the assumptions of the model (judged
+// by the monitors only); they run after all model cases.
+func LateWitnesses(prop string) []*Case {
+	var out []*Case
+	if prop == "C12" {
+		// route sets around the one-byte route count of ROUTE_ADVERTISE: 254 / 255 / 256 / 300 exit routes (+ presence)
+		// on agent 0 of a chain 0-1-2, then a late joiner 3 at the far end that learns from replays and one more
+		// announcement. Everybody must learn agent 0's presence and every one of its routes.
+		for _, r := range []int{254, 255, 256, 300} {
+			var adds []Op
+			for id := 1; id <= r; id++ {
+				adds = append(adds, Op{K: "addlocal", A: 0, Kind: KCidr, ID: id})
+			}
+			out = append(out, &Case{Name: fmt.Sprintf("w12-%d-routes", r), N: 4, Limits: make([]int, 4), Settle: true, NoModel: true,
+				Ops: cat(chainLinks(3), adds, ops(Op{K: "announce", A: 0}), drain(12), ops(Op{K: "connect", A: 2, B: 3}), drain(12),
+					ops(Op{K: "announce", A: 0}, Op{K: "announce", A: 3}), drain(24))})
+		}
 	}
 	return out
 }
